@@ -60,8 +60,9 @@ type CallbackSpec struct {
 	Complete    bool   `json:"complete,omitempty"`
 	NoReset     bool   `json:"no_reset,omitempty"`
 	NextTimeUS  int64  `json:"next_timeout_us,omitempty"`
-	Write       string `json:"write,omitempty"` // what the callback sends to the device (with return)
-	Fail        bool   `json:"fail,omitempty"`  // the callback function returns an error
+	Write       string `json:"write,omitempty"`    // what the callback sends to the device (with return)
+	Fail        bool   `json:"fail,omitempty"`     // the callback function returns an error
+	NilFunc     bool   `json:"nil_func,omitempty"` // the callback is made without a function
 }
 
 // OpSpec is one step of the workload.
@@ -165,12 +166,12 @@ type Session struct {
 	// PlatLogin: the network driver is built from a platform definition whose network-on-open
 	// sequence writes this login secret (redacted) to a gate in front of the device, presses
 	// return, acquires the default level and sends a command
-	PlatLogin string   `json:"plat_login,omitempty"`
+	PlatLogin string `json:"plat_login,omitempty"`
 	// GateByDialogue: no platform definition; the caller's own on-open hook answers the gate
 	// with an interactive dialogue whose first (and only) input is the hidden login secret,
 	// acquires the default level and sends the command
-	GateByDialogue bool `json:"gate_by_dialogue,omitempty"`
-	OnClose   []string `json:"on_close,omitempty"`
+	GateByDialogue bool     `json:"gate_by_dialogue,omitempty"`
+	OnClose        []string `json:"on_close,omitempty"`
 	// Recover: after the first timed-out operation the device catches up (stall fault lifted).
 	Recover bool `json:"recover,omitempty"`
 	// StopAfterError: stop the workload after this many failed operations (0 = never).
@@ -797,18 +798,22 @@ func (sr *SessionRun) do(env *Env, op *OpSpec, o []util.Option, rec *OpRec) {
 				co = append(co, opoptions.WithCallbackNextTimeout(oddTimeout(Micro(cs.NextTimeUS))))
 			}
 			name, wr, fail := cs.Name, cs.Write, cs.Fail
-			cb, err := generic.NewCallback(func(d *generic.Driver, s string) error {
-				sr.cbRec.CbFired = append(sr.cbRec.CbFired, name+"|"+s)
-				sr.cbRec.CbTimes = append(sr.cbRec.CbTimes, env.K.Now())
-				if fail {
-					return errCallbackFailed
-				}
-				if wr != "" {
-					return d.Channel.WriteAndReturn([]byte(wr), false)
-				}
+			var fn func(d *generic.Driver, s string) error
+			if !cs.NilFunc {
+				fn = func(d *generic.Driver, s string) error {
+					sr.cbRec.CbFired = append(sr.cbRec.CbFired, name+"|"+s)
+					sr.cbRec.CbTimes = append(sr.cbRec.CbTimes, env.K.Now())
+					if fail {
+						return errCallbackFailed
+					}
+					if wr != "" {
+						return d.Channel.WriteAndReturn([]byte(wr), false)
+					}
 
-				return nil
-			}, co...)
+					return nil
+				}
+			}
+			cb, err := generic.NewCallback(fn, co...)
 			if err != nil {
 				rec.Err = err
 
